@@ -39,13 +39,13 @@ def keep_failure_file(prop, f):
     return f
 
 
-def generic(prop, cfg, tier, seed, parts, extra_viol=(), extra_cov=None):
+def generic(prop, cfg, tier, seed, parts, extra_viol=(), extra_cov=None, extra_kf=()):
     """parts: list of (tool, n_quick, n_thorough, extra args, {lift_name: finding id})"""
     t0 = time.time()
     core.ensure_built()
     audit = core.lean_audit(cfg["module"])
     lean_ok = audit["ok"]
-    printed, kf = [], []
+    printed, kf = [], list(extra_kf)
     nviol = 0
     total_eval, total_dist = 0, 0
     reports = {}
@@ -114,9 +114,63 @@ def run_c03(prop, cfg, tier, seed):
                    [("pvfront", 1500, 40000, ["-k", "3"], {"classdash": "D3", "multilineeos": "D20", "slashslashbrace": "D21", "reserved": "F1", "quotebyte": "F2"})])
 
 
+DOCUMENTED_EXITS = {0, 1, 2, 3, 4, 5, 6, 7, 8, 9}
+
+
+def pigeon_once(path, flags, limit):
+    cmd = "ulimit -v 2000000; exec timeout %d %s %s -o /dev/null %s" % (limit, PIGEON, " ".join(flags), path)
+    p = subprocess.run(["sh", "-c", cmd], stdout=subprocess.PIPE, stderr=subprocess.PIPE, stdin=subprocess.DEVNULL)
+    err = p.stderr.decode(errors="replace")
+    if p.returncode == 124:
+        return "no exit within %d s" % limit
+    if "panic:" in err or "goroutine " in err or "fatal error" in err:
+        return "Go panic / fatal error (exit %d): %s" % (p.returncode, err[:300])
+    if p.returncode not in DOCUMENTED_EXITS:
+        return "undocumented exit status %d: %s" % (p.returncode, err[:300])
+    if p.returncode != 0 and not err.strip():
+        return "exit %d with empty stderr" % p.returncode
+    return None
+
+
+def corpus_c13(prop):
+    """minimised past failures (corpus/C13/*.peg) run first: pigeon must exit with a documented status, without a Go
+    panic trace, within 20 s and 2 GB (a hang used to eat memory without bound). corpus/C13/known/<ID>_*.peg are the
+    witnesses of the LISTED findings: a failure there prints KNOWN-FINDING (and is a violation if <ID> is not listed)."""
+    viol, kf, n = [], [], 0
+    lst = findings.listed(prop)
+    d = os.path.join(core.VERIF, "corpus", "C13")
+
+    def pegs(dd):
+        return [os.path.join(dd, f) for f in sorted(os.listdir(dd)) if f.endswith(".peg")] if os.path.isdir(dd) else []
+    for path in pegs(d):
+        for flags in ([], ["-optimize-grammar", "-support-left-recursion"]):
+            n += 1
+            why = pigeon_once(path, flags, 20)
+            if why:
+                f = os.path.basename(path)
+                viol.append(("corpus/%s" % f, {"why": why, "detail": "%s: %s" % (f, why), "file": path, "flags": flags,
+                                               "replay_cmd": "timeout 20 /verif/build/bin/pigeon %s -o /dev/null %s" % (" ".join(flags), path)}, True))
+    for path in pegs(os.path.join(d, "known")):
+        n += 1
+        f = os.path.basename(path)
+        fid = f.split("_")[0]
+        why = pigeon_once(path, [], 5)
+        if not why:
+            continue
+        if fid in lst:
+            kf.append("KNOWN-FINDING: property=%s %s %s" % (prop, fid, lst[fid]["what"]))
+        else:
+            viol.append(("corpus/%s" % f, {"why": why, "detail": "%s: %s" % (f, why), "file": path, "flags": [],
+                                           "replay_cmd": "timeout 5 /verif/build/bin/pigeon -o /dev/null %s" % path}, True))
+    return viol, kf, n
+
+
 def run_c13(prop, cfg, tier, seed):
+    core.ensure_built()
+    viol, kf, n = corpus_c13(prop)
     return generic(prop, cfg, tier, seed,
-                   [("pvtool", 700, 12000, ["-lift", "optthrow"], {"norecoverpanic": "F4"})])
+                   [("pvtool", 700, 12000, ["-lift", "optthrow"], {"norecoverpanic": "F4"})],
+                   extra_viol=viol, extra_cov={"corpus_runs": n}, extra_kf=kf)
 
 
 def run_c04(prop, cfg, tier, seed):
